@@ -14,7 +14,7 @@ import itertools
 import statistics
 from fractions import Fraction as F
 
-from ..core import LEAN, Prop, Violation, import_repo, show_bool, show_rat, write_if_changed
+from ..core import LEAN, Infra, Prop, Violation, import_repo, show_bool, show_rat, write_if_changed
 
 LEVELS = ["none", "suspicious", "confirmed", "critical"]
 ACTIONS = ["ignore", "monitor", "isolate", "shutdown", "alert"]
@@ -82,12 +82,34 @@ def one_step_or_same(orig: str, mod: str) -> bool:
     return orig == "alert" and mod == "monitor"     # ALERT is off the ladder; the shipped table sends it to MONITOR
 
 
+WORDS = ["alpha", "beta", "gamma", "delta", "omega", "sigma", "kappa", "zeta"]
+WORD_ONE = 15          # the token "1" that the numbered-list rendering adds to the vocabulary
+S_JSON, S_NUM, S_BULLET, S_MD, S_PLAIN = 0, 1, 2, 3, 4
+
+
+def render(out, struct, words):
+    """the output string an `obs` line stands for (harness-side definition of the protocol, not operon code)"""
+    if out == "none":
+        return None
+    if out == "empty":
+        return ""
+    ws = [WORDS[w].capitalize() if i % 2 == 0 else WORDS[w] for i, w in enumerate(w for w in words if w != WORD_ONE)]
+    body = " ".join(ws)
+    if out == "brk":
+        return "{" + body                      # looks like json, is not: detected as plain
+    if struct == S_JSON:
+        import json as _json
+        return _json.dumps(ws)
+    return {S_NUM: "1. ", S_BULLET: "- ", S_MD: "# ", S_PLAIN: ""}[struct] + body
+
+
 class _Stub:
     """stands in for MHCDisplay: shows the fingerprint the protocol line says the agent currently displays"""
 
     def __init__(self, agent_id):
         self.agent_id = agent_id
         self.pep = None
+        self.fp = None
         self.observations = []
         self.canary_results = []
 
@@ -100,7 +122,7 @@ class C17(Prop):
     title = "Surveillance acts only on two signals and never softens a critical threat"
     extractors = ["E4"]
     fixed_prefix = 1
-    quick_budget = 1500
+    quick_budget = 3000
     thorough_budget = 30000
     quick_deadline_s = 100
     thorough_deadline_s = 560
@@ -111,7 +133,7 @@ class C17(Prop):
         "tr:positive", "tr:anergic", "tr:insufficient", "tr:raise", "tr:unregistered",
         "p:untrained", "p:nopeptide", "p:recalled", "p:recall-blocked-anergic", "p:recall-blocked-inside", "p:tcell",
         "p:none", "p:suspicious", "p:confirmed", "p:critical", "p:anergic", "p:s2-cross", "p:stored",
-        "p:stored-pruned", "p:cond-raised",
+        "p:stored-pruned", "p:cond-raised", "d:peptide", "d:short", "d:evicted", "d:canary",
     ]
     assumptions = [
         "fingerprint hashes are compared as opaque values (md5 prefixes treated as injective on the strings explored)",
@@ -129,6 +151,8 @@ class C17(Prop):
     def setup(self, ctx):
         import_repo()
         from operon_ai.surveillance import immune_system as IS
+        from operon_ai.surveillance import display as DISP
+        self.DISP = DISP
         from operon_ai.surveillance import memory as MEM
         from operon_ai.surveillance import tcell as TC
         from operon_ai.surveillance import thymus as TH
@@ -136,6 +160,7 @@ class C17(Prop):
         from operon_ai.surveillance import types as T
         self.IS, self.MEM, self.TC, self.TH, self.TR, self.T = IS, MEM, TC, TH, TR, T
         self.skipped_boundary = 0
+        self._hids = {}
         prop = self
         self.tick = 0
 
@@ -214,18 +239,34 @@ class C17(Prop):
             error_rate_max=float(pr[6]), valid_vocabulary_hashes={f"v{x}" for x in pr[7]},
             valid_structure_hashes={f"s{x}" for x in pr[8]}, canary_accuracy_min=float(pr[9]))
 
+    def hid(self, h):
+        """opaque hash string -> small integer (equality is all that matters)"""
+        try:
+            return int(h[1:])
+        except Exception:
+            return self._hids.setdefault(h, 1000 + len(self._hids))
+
     def read_profile(self, prof):
         """real BaselineProfile -> tuple in oracle layout (floats are exact rationals)"""
-        def num(h):
-            try:
-                return int(h[1:])
-            except Exception:
-                return -1
+        num = self.hid
         return (F(prof.output_length_bounds[0]), F(prof.output_length_bounds[1]),
                 F(prof.response_time_bounds[0]), F(prof.response_time_bounds[1]),
                 F(prof.confidence_bounds[0]), F(prof.confidence_bounds[1]), F(prof.error_rate_max),
                 sorted(num(h) for h in prof.valid_vocabulary_hashes),
                 sorted(num(h) for h in prof.valid_structure_hashes), F(prof.canary_accuracy_min))
+
+    def shown_fp(self, disp):
+        """the fingerprint the agent shows now, in oracle layout (an observation of the implementation)"""
+        if disp is None:
+            return None
+        if isinstance(disp, _Stub):
+            return disp.fp if disp.pep is not None else None
+        pep = disp.generate_peptide()
+        if pep is None:
+            return None
+        return (F(pep.output_length_mean), F(pep.output_length_std), F(pep.response_time_mean), F(pep.response_time_std),
+                F(pep.confidence_mean), F(pep.confidence_std), self.hid(pep.vocabulary_hash), self.hid(pep.structure_hash),
+                F(pep.error_rate), None if pep.canary_accuracy is None else F(pep.canary_accuracy))
 
     def mk_cond(self, c):
         T = self.T
@@ -361,6 +402,40 @@ class C17(Prop):
                     ims().register_agent(a)
                     ims().displays[a] = _Stub(a)
                     o = "ok"
+                elif op == "dreg" and len(t) == 4:
+                    a = f"a{int(t[1])}"
+                    ims().register_agent(a)
+                    ims().displays[a] = self.DISP.MHCDisplay(agent_id=a, window_size=int(t[2]), min_observations=int(t[3]))
+                    o = "ok"
+                elif op == "obs" and len(t) == 12:
+                    a = f"a{int(t[1])}"
+                    d = ims().displays.get(a)
+                    if not isinstance(d, self.DISP.MHCDisplay):
+                        o = "no-display"
+                    else:
+                        words = set_parse(t[4])
+                        text = render(t[2], int(t[3]), words)
+                        if text:       # the protocol's abstract view must describe the string that is really sent
+                            import re as _re
+                            got = {w for w in _re.findall(r"[a-z0-9]+", text.lower())}
+                            want = {("1" if w == WORD_ONE else WORDS[w]) for w in words}
+                            if got != want or len(text) != int(t[5]):
+                                raise Infra(f"obs line does not describe its rendering: {line!r} -> {text!r}")
+                        err = None if t[8] == "-" else ("" if t[8] == "empty" else f"e{t[8]}")
+                        n0 = len(d.observations)
+                        ims().record_observation(a, text, float(F(t[6])), float(F(t[7])), err)
+                        o = f"ok n={len(d.observations)}"
+                elif op == "canary" and len(t) == 3:
+                    a = f"a{int(t[1])}"
+                    d = ims().displays.get(a)
+                    if not isinstance(d, self.DISP.MHCDisplay):
+                        o = "no-display"
+                    else:
+                        ims().record_canary_result(a, t[2] == "1")
+                        o = "ok"
+                elif op == "show" and len(t) in (3, 12) and isinstance(ims().displays.get(f"a{int(t[1])}"), self.DISP.MHCDisplay) \
+                        and (len(t) == 12 or t[2] == "none"):
+                    o = "bad-op"
                 elif op == "show" and len(t) in (3, 12):
                     a = f"a{int(t[1])}"
                     if a not in ims().displays:
@@ -395,8 +470,7 @@ class C17(Prop):
                           "anergic_before": bool(tc.is_anergic) if tc is not None else None,
                           "rep": tc.repeated_anomaly_threshold if tc is not None else None,
                           "flag_before": bool(tc.manual_flag) if tc is not None else None,
-                          "fp": getattr(disp, "fp", None) if (disp is not None and disp.pep is not None) else None,
-                          "raw": None, "evals": []}
+                          "fp": self.shown_fp(disp), "raw": None, "evals": []}
                     del self.raw_log[:]
                     del self.eval_log[:]
 
@@ -495,8 +569,8 @@ class C17(Prop):
                 f = o.split()
                 supp, orig, mod = f[0] == "1", f[1], f[2]
                 out += self._treg_clauses(idx, ex["level"], ex["action"], supp, orig, mod)
-            elif op in ("reg", "show"):
-                if o == "ok":
+            elif op in ("reg", "show", "dreg", "obs", "canary"):
+                if o.startswith("ok"):
                     fresh_trained[int(t[1])] = False
             elif op == "train" and ex:
                 a = ex["agent"]
@@ -888,6 +962,128 @@ class C17(Prop):
             lines += [f"train {a}", f"pinspect {a}", f"show {a} " + " ".join(fp_tokens(threat)), f"pinspect {a}"]
         return {"lines": lines, "note": "pipeline anergy drill"}
 
+    # -- real MHCDisplay: observations through record_observation, fingerprints computed by the code under test -----
+    def case_display(self, rng):
+        mn = rng.choice([10, 3, 1])
+        tol = rng.choice([F(2), F(2), F(1), F(3), F(0)])
+        stab = rng.choice([100, 100, 2])
+        cap = rng.choice([1000, 2])
+        rules = [f"{rng.choice(LEVELS)}:{rng.choice(CONDS[:-1])}" for _ in range(rng.choice([0, 0, 1, 2]))]
+        lines = [" ".join(["sys", str(mn), show_rat(tol), "1/2", str(stab), str(cap)] + rules)]
+        a = rng.choice([0, 1])
+        ws, mo = rng.choice([20, 12, 6, 3]), rng.choice([10, 5, 3, 1])
+        lines.append(f"dreg {a} {ws} {mo}")
+        win, canaries = [], []          # generator's own view of the window: (len, time, conf, err, words, struct, has)
+        base_struct = rng.choice([S_PLAIN, S_PLAIN, S_JSON, S_BULLET, S_NUM, S_MD])
+        base_words = rng.sample(range(8), rng.choice([1, 2, 3]))
+        base_time = F(rng.choice([2, 4, 8]), 4)
+        base_conf = F(rng.choice([48, 56, 60]), 64)
+        trained = None                  # (profile, fingerprint) the generator believes the agent was trained on
+
+        def sdev(vals):
+            return F(statistics.stdev([float(v) for v in vals])) if len(vals) > 1 else F(0)
+
+        def fingerprint():
+            if len(win) < mo or not win:
+                return None
+            n = len(win)
+            vocab = frozenset(w for o in win if o[6] for w in o[4])
+            structs = frozenset(o[5] for o in win if o[6])
+            ca = F(sum(canaries), len(canaries)) if canaries else None
+            return (sum(F(o[0]) for o in win) / n, sdev([o[0] for o in win]), sum(o[1] for o in win) / n,
+                    sdev([o[1] for o in win]), sum(o[2] for o in win) / n, sdev([o[2] for o in win]),
+                    vocab, structs, F(sum(1 for o in win if o[3]), n), ca)
+
+        def emit_obs(kind):
+            struct, words, tm, cf, err, out = base_struct, list(base_words), base_time, base_conf, "-", "text"
+            reps = rng.choice([1, 2, 3])
+            if kind == "slow":
+                tm = base_time * rng.choice([8, 16])
+            elif kind == "long":
+                reps = rng.choice([12, 30])
+            elif kind == "err":
+                err = str(rng.choice([0, 1, 2]))
+            elif kind == "vocab":
+                words = rng.sample(range(8), 2)
+            elif kind == "struct":
+                struct = rng.choice([x for x in (S_PLAIN, S_JSON, S_BULLET, S_NUM, S_MD) if x != base_struct])
+            elif kind == "lowconf":
+                cf = F(rng.choice([4, 16]), 64)
+            elif kind == "silent":
+                out = rng.choice(["none", "empty"])
+            elif kind == "brk":
+                out = "brk"
+            elif kind == "emptyerr":
+                err = "empty"
+            else:
+                tm = base_time + F(rng.choice([0, 0, 1, -1]), 64)
+            wl = [w for w in words for _ in range(reps)]
+            if struct == S_NUM and out == "text":
+                wl = wl + [WORD_ONE]
+            text = render(out, struct, wl)
+            ln = len(text) if text else 0
+            det = S_PLAIN if out == "brk" else struct
+            win.append((ln, tm, cf, err not in ("-", "empty"), wl if text else [], det, bool(text)))
+            if len(win) > ws:
+                win.pop(0)
+            sds = (sdev([o[0] for o in win]), sdev([o[1] for o in win]), sdev([o[2] for o in win]))
+            lines.append(" ".join(["obs", str(a), out, str(det), set_tok(wl) if text else "-", str(ln), show_rat(tm),
+                                   show_rat(cf), err] + [show_rat(x) for x in sds]))
+
+        def emit_inspect():
+            fp = fingerprint()
+            if fp is not None and trained is not None:
+                pr, tfp = trained
+                probe = fp[:6] + (0, 0) + fp[8:]
+                if not self.clear_of_boundaries(pr, probe, fp == tfp):
+                    self.skipped_boundary += 1
+                    return
+            lines.append(f"pinspect {a}")
+
+        def emit_train():
+            nonlocal trained
+            fp = fingerprint()
+            lines.append(f"train {a}")
+            if fp is not None and mn >= 1:
+                pr = self.believed_profile([fp[:6] + (0, 0) + fp[8:]], (F(0), F(0), F(0)), tol)
+                trained = (pr, fp)
+
+        for _ in range(rng.choice([mo, mo + 2, ws, ws + 3, max(mo - 1, 0)])):
+            emit_obs("base")
+        if rng.random() < 0.3:
+            canaries.append(True)
+            lines.append(f"canary {a} 1")
+        emit_train()
+        emit_inspect()
+        for _ in range(rng.choice([4, 8, 14, 20])):
+            x = rng.random()
+            if x < 0.30:
+                kind = rng.choice(["slow", "long", "err", "vocab", "struct", "lowconf", "silent", "brk", "emptyerr"])
+                for _ in range(rng.choice([1, 2, 4, ws])):
+                    emit_obs(kind)
+                emit_inspect()
+            elif x < 0.45:
+                for _ in range(rng.choice([1, 3, ws])):
+                    emit_obs("base")
+                emit_inspect()
+            elif x < 0.65:
+                emit_inspect()
+            elif x < 0.75:
+                b = rng.random() < 0.5
+                canaries.append(b)
+                lines.append(f"canary {a} {show_bool(b)}")
+                emit_inspect()
+            elif x < 0.82:
+                lines.append(f"pflag {a} 1")
+            elif x < 0.88:
+                lines.append(f"presetfa {a}")
+            elif x < 0.92:
+                lines.append(f"preset {a}")
+            else:
+                emit_train()
+                emit_inspect()
+        return {"lines": lines, "note": "pipeline with the real MHCDisplay"}
+
     def case_malformed(self, rng):
         junk = ["", "inspect", "inspect 1 2 3", "tcell 3 5", "evaluate none", "pinspect", "show 0", "train", "frobnicate 1",
                 "ttrain 0 0 0", "treset", "flag 1", "check 1 2 3 4 5 6 7 8 9 none", "sample 1 2"]
@@ -900,6 +1096,8 @@ class C17(Prop):
             x = rng.random()
             if x < 0.06:
                 c = self.case_pipeline_anergy(rng)
+            elif x < 0.16:
+                c = self.case_display(rng)
             elif x < 0.36:
                 c = self.case_pipeline(rng)
             elif x < 0.68:
